@@ -79,3 +79,18 @@ def viol(kind: str, details: Callable[[], str]) -> str:
     if _tracing():
         return kind + ": (details rendered at replay)"
     return f"{kind}: {details()}"
+
+
+def concretely(fn, *a, **k):
+    """Run fn(*a, **k) with CrossHair tracing switched off.  For harness phases in which every
+    value is already concrete (all finite-domain choices have been case-split by the solver):
+    the real code then runs at native speed and CrossHair's own container models (which add
+    iteration-order nondeterminism and deep copies) stay out of the way."""
+    try:
+        from crosshair.tracers import NoTracing, is_tracing
+    except Exception:  # noqa: BLE001
+        return fn(*a, **k)
+    if not is_tracing():
+        return fn(*a, **k)
+    with NoTracing():
+        return fn(*a, **k)
